@@ -263,6 +263,32 @@ func runC17(c *Ctx) {
 		c.Check(ok, "C17.R5", "NewRequestForHostname = FillRequestForHostname(fresh request, hostname)", nrh.Pos(), "wired to the fill helper", "the constructor does not fill a fresh request through the shared helper")
 	}
 
+	// ---------- R7: delimiter searches see the whole URL ----------
+	{
+		c.Rule("C17.R7", "WIRE", "the hostname extractor searches its delimiters in the whole URL (or the suffix after the scheme), never in a bounded prefix", 2)
+		g := NewGate(c.P)
+		g.Inline = inlineOnly()
+		s := g.Eval(ext)
+		u := g.U
+		url := g.ParamExprs(ext)[0]
+		n := 0
+		for _, x := range u.Collect(g.RetExpr(s, 0), func(x *E) bool { return x.Op == "call" && strings.HasPrefix(x.Aux, "strings.Index") }) {
+			n++
+			hay := x.Args[0]
+			ok := hay == url || (hay.Op == "slice" && hay.Args[0] == url && hay.Args[2] == nil)
+			c.Check(ok, "C17.R7", shortFn(ext)+": "+strings.TrimPrefix(x.Aux, "strings.")+" searches the whole URL / the suffix after the scheme", ext.Pos(), "haystack is url or url[i:]",
+				"a delimiter is searched in "+clip(u.Show(hay), 80)+": a bounded prefix misses the \"//\" of a long scheme (chrome-extension://...) and the hostname is wrong")
+		}
+		for _, r := range s.Rets {
+			for _, at := range u.AtomsOf(r.Cond) {
+				_ = at
+			}
+		}
+		if n == 0 {
+			c.Fail("C17.R7", shortFn(ext)+": delimiter searches", ext.Pos(), "UNDECIDED: no strings.Index* call found in the result")
+		}
+	}
+
 	// ---------- R6: eTLD+1 decision table ----------
 	{
 		g := NewGate(c.P)
